@@ -30,7 +30,7 @@ LEVEL_NOTE = ('T8: floats as exact reals; rounding to milliseconds as any value 
               'assumed model (the text level is bounded). Domain calibrated on this image: only UTC and full-zone-name renderings are parseable '
               '(zoneinfo-based pytz shim, no abbreviation support); ambiguous wall-clock times must be rejected.')
 TECHNIQUE = 'contract on duration._format over an abstract token log + lemmas over timestamp comparison (reals), VCs from the real AST, z3; bounded render/parse over zones, transitions, precisions and duration texts'
-TRUSTED = ['T8 floats as reals', 'str.format / rstrip abstracted to unit tokens (text level only in the bounded tier)', 'zoneinfo / pytz shim, re, datetime are external (T4)']
+TRUSTED = ['T8 floats as reals', 'cache contracts: render(ms=True) as an uninterpreted function of the value (its frame is the render_frame obligation, AST-decided)', 'str.format / rstrip abstracted to unit tokens (text level only in the bounded tier)', 'zoneinfo / pytz shim, re, datetime are external (T4)']
 ASSUMPTIONS = ['non-negative durations', 'parseable renderings on this image: UTC default and tzdetail=True full zone names']
 
 T = "history/times.py"
@@ -280,7 +280,7 @@ def replay_render_frame(model, obligation):
 
 
 def contracts(repo):
-    return [format_spec()] + cmp_specs() + cache_specs() + [Custom('render_frame', render_frame, replay=replay_render_frame,
+    return [format_spec()] + cmp_specs() + cache_specs() + [Custom('render_frame', render_frame, replay=replay_render_frame, targets=[(T, 'timestamp.render'), (T, 'timestamp.datetime_from_number'), (T, 'timestamp.timezone_info')],
                                                    note='frame condition decided on the AST of the real timestamp.render / datetime_from_number: no store to self / cls')] + [Custom('order', order_lemmas, note='over the contracts of __lt__/__gt__: lt := a + eps < b, gt := a - eps > b, eq := neither')]
 
 
